@@ -1,10 +1,47 @@
-(* Runner for C01 (also used by C02/C03): c01 calc <doc> *)
-From Coq Require Import ZArith List String Bool.
-From Verif Require Import Base.Wire Calc.Doc Calc.Calc Run.RunCalc.
+(* Runner for C01 (also used by C02/C03):
+     c01 calc  <doc> : the calculation model (Calc.calculate)
+     c01 ideal <doc> : the declarative specification with its rounding points (Ideal.ideal):
+                       ( ok ( ( price sum total ) per presented line ) sum discount charge tax_included total tax
+                         total_with_tax payable advances due ) - every figure ( numerator denominator decimals ),
+                       absent optional totals ( )
+     c01 exact <doc> : the same ten totals with no rounding at all (Ideal.exact), ( numerator denominator ) in
+                       lowest terms
+     c01 class <doc> : ( simple? budget uses_conversion? uses_breakdown? precise? simple_but_price? ) -
+                       IdealClass.simple_docb, budget, uses_conversion, uses_breakdown, the rounding rule,
+                       simple_but_priceb *)
+From Coq Require Import ZArith QArith List String Bool.
+From Verif Require Import Base.Wire Calc.Doc Calc.Calc Run.RunCalc Calc.Ideal Calc.IdealClass.
 Import ListNotations.
+
+Definition e_q (q : Q) : list V := let r := Qred q in [VI (Qnum r); VI (Zpos (Qden r))].
+Definition e_tot (dec : option nat) (q : Q) : V :=
+  VL (e_q q ++ match dec with Some c => [VN c] | None => [] end).
+Definition e_otot (dec : option nat) (o : option Q) : V :=
+  match o with Some q => e_tot dec q | None => VL [] end.
+Definition e_fig (f : fig) : V := VL (e_q (fq f) ++ [VN (fp f)]).
+Definition e_iline (l : iline) : V := VL [e_fig (il_price l); e_fig (il_sum l); e_fig (il_total l)].
+
+Definition e_itotals (dec : option nat) (o : option itotals) : list V :=
+  match o with
+  | None => [VS (bs "none")]
+  | Some t =>
+    [VS (bs "ok");
+     VL [VL (match dec with Some _ => map e_iline (i_lines t) | None => [] end);
+         e_tot dec (i_sum t); e_otot dec (i_discount t); e_otot dec (i_charge t); e_otot dec (i_tax_included t);
+         e_tot dec (i_total t); e_tot dec (i_tax t); e_tot dec (i_twt t); e_tot dec (i_payable t);
+         e_otot dec (i_advances t); e_otot dec (i_due t)]]
+  end.
 
 Definition run_c01 (args : list V) : list V :=
   match args with
-  | o :: d :: _ => if is_op o "calc" then e_result (calculate (d_doc d)) else [verr "unknown-c01-op"]
+  | o :: d :: _ =>
+    if is_op o "calc" then e_result (calculate (d_doc d))
+    else if is_op o "ideal" then e_itotals (Some (d_c (d_doc d))) (ideal (d_doc d))
+    else if is_op o "exact" then e_itotals None (exact (d_doc d))
+    else if is_op o "class" then
+      let x := d_doc d in
+      [VL [VB (simple_docb x); VI (budget x); VB (uses_conversion x); VB (uses_breakdown x);
+           VB (negb (d_currency_rule x)); VB (simple_but_priceb x)]]
+    else [verr "unknown-c01-op"]
   | _ => [verr "unknown-c01-op"]
   end.
